@@ -1227,3 +1227,44 @@ def lockstep_equality(prog, chk, rid, classes):
                 else:
                     chk.ok(rid, f, "operator==: equal sizes, lock-step walk, %s compared position by position" % "/".join(EQ_FIELDS[cls]), where,
                            "cursor advance on every back edge + differing edges end in false", evals=3 + len(EQ_FIELDS[cls]))
+
+
+def self_assign_noop(prog, chk, rid, classes=("List", "Map", "MultiMap", "HashMap", "HashSet")):
+    """elements of node containers never move: assigning a container to itself removes and inserts nothing, so it must not construct,
+    destroy or re-link a single node - everything operator= does lies behind the alias guard"""
+    chk.rule(rid, "DOM: in operator=(const Self& other) of the node containers every event that creates, destroys or hands over nodes "
+                  "(clear/append/insert/swap on this, copies of the whole container, placement new, destructor calls) is taken only on "
+                  "the `this != &other` edge of an alias test", floor=len(classes))
+    for cls in classes:
+        for tn, fs in sorted(class_insts(prog, cls).items()):
+            for f in [f for f in fs if f.kind == "copyassign"]:
+                other = f.params[0]
+                guard_edges = []
+                for b in f.blocks.values():
+                    c = b.get("cond")
+                    if c is None or len(b["succ"]) != 2:
+                        continue
+                    t = q.no_casts(f.r(c))
+                    if re.search(r"this (==|!=) &%s\b|&%s (==|!=) this" % (other["n"], other["n"]), t):
+                        eq = "==" in t
+                        guard_edges.append((b["id"], b["succ"][1] if eq else b["succ"][0]))
+                events = []
+                for i in q.calls(f):
+                    n = f.nodes[i]
+                    callee = n.get("callee", "") or ""
+                    if n["k"] == "CXXMemberCallExpr" and (q.call_object(f, i) is None or f.nodes[q.call_object(f, i)]["k"] == "CXXThisExpr") and \
+                       not (n.get("csig") or "").endswith(" const"):
+                        events.append((i, "this->%s()" % callee.split("::")[-1]))
+                    elif n["k"] == "CXXConstructExpr" and (n.get("t") or "").replace("const ", "").strip() == tn:
+                        events.append((i, "a copy of the whole container"))
+                events += [(p_, "placement new") for p_ in placement_news(f)] + [(d_, "a destructor call") for d_, _o in dtor_events(f)]
+                events = [(i, w) for i, w in events if f.node_pos(i) is not None]
+                where = "%s:%s" % (f.file, f.line)
+                bad = [(i, w) for i, w in events if not any(f.edge_dominates(e, f.node_pos(i)) for e in guard_edges)]
+                if bad:
+                    chk.bad(rid, f, "self-assignment-relocates-elements", f.where(bad[0][0]),
+                            "operator= performs %s also when the argument is the container itself: every element is copied into a new node and "
+                            "the old nodes are destroyed, pointers and iterators to the elements dangle although nothing was removed" % bad[0][1],
+                            evals=len(events) + 1)
+                else:
+                    chk.ok(rid, f, "self-assignment touches no node", where, "%d node events, all behind the alias guard" % len(events), evals=len(events) + 1)
